@@ -456,6 +456,11 @@ Definition call (f : string) (args : list val) : option (option val) :=   (* Non
     end
   else if is "np.ones_like" then
     match args with [VA l] => match ones_like (VA l) with Some a => Some (Some a) | None => None end | _ => None end
+  else if is "range" then
+    match args with
+    | [VZ n] => Some (Some (VL (map (fun i => VZ (Z.of_nat i)) (seq 0 (Z.to_nat n)))))
+    | _ => None
+    end
   else if is "np.arange" then
     match args with
     | [VZ a; VZ b] => Some (Some (VA (map (fun i => VZ (a + Z.of_nat i)) (seq 0 (Z.to_nat (b - a))))))
